@@ -178,6 +178,100 @@ def replay_config(cfg, trace, asserts=True):
     return None
 
 
+# ---------------------------------------------------------------------------------------------
+# Python-level sweep of Duration.count_periods over the complete (unit, mantissa, clock) grid
+# ---------------------------------------------------------------------------------------------
+SWEEP_MODES = ("default", "relaxed", "float")
+
+
+def _num(text):
+    return float(text) if "." in text else int(text)
+
+
+def grid_eval(u, m, clk, mode):
+    """call the real Duration.count_periods -> ("ok", value) | ("reject", text)"""
+    from cohdl import std
+
+    kind, unit, text = G.CLOCKS[clk]
+    per = getattr(std, unit)(_num(text))
+    per = per.period()
+    d = getattr(std, u)(_num(m))
+    try:
+        if mode == "default":
+            return ("ok", d.count_periods(per))
+        if mode == "relaxed":
+            return ("ok", d.count_periods(per, allowed_delta=0.25))
+        return ("ok", d.count_periods(per, float_result=True))
+    except AssertionError as e:
+        return ("reject", str(e)[:120])
+
+
+def grid_expect(r, mode):
+    """documented result for the exact ratio r (Fraction): ("ok", n) | ("reject",) | ("float", r) | None = not
+    constrained.  count_periods: "dividing the two period durations and rounding to the nearest integer";
+    "`allowed_delta` defines the maximum allowed difference between the float division result and the returned
+    integer" (relative or absolute is not said: only cases where both readings agree are constrained; ratios
+    next to the tolerance are left open); float_result: the quotient without rounding."""
+    from fractions import Fraction as F
+
+    if mode == "float":
+        return ("float", r)
+    if r.denominator == 1:
+        return ("ok", int(r))
+    lo = r.numerator // r.denominator
+    near = lo if r - lo < F(1, 2) else lo + 1  # (a tie has dev_abs = 1/2 and is never expected to be accepted)
+    dev_abs = abs(r - near)
+    dev_rel = dev_abs / r
+    tol = F(1, 10**9) if mode == "default" else F(1, 4)
+    if max(dev_abs, dev_rel) < tol * F(8, 10):
+        return ("ok", near)
+    if min(dev_abs, dev_rel) > tol * F(12, 10) and min(dev_abs, dev_rel) > F(1, 10**6):
+        return ("reject",)
+    return None
+
+
+def grid_compare(got, exp):
+    if exp is None:
+        return None
+    if exp[0] == "float":
+        if got[0] != "ok" or not isinstance(got[1], (int, float)) or abs(got[1] - float(exp[1])) > 1e-9 * float(exp[1]):
+            return f"float_result={got} but the exact quotient is {exp[1]}"
+        return None
+    if exp[0] == "reject":
+        return None if got[0] == "reject" else f"returned {got[1]} although the clock period does not divide the duration"
+    if got[0] != "ok":
+        return f"rejected ({got[1]}) although the exact number of periods is {exp[1]}"
+    if got[1] != exp[1] or isinstance(got[1], bool) or not isinstance(got[1], int):
+        return f"returned {got[1]!r}, exact number of periods is {exp[1]}"
+    return None
+
+
+def sweep_one(u, m, clk, mode):
+    from ..ref.c16_models import duration_ticks_exact
+
+    r = duration_ticks_exact((u, m), G.CLOCKS[clk])
+    exp = grid_expect(r, mode)
+    return grid_compare(grid_eval(u, m, clk, mode), exp), exp, r
+
+
+def duration_sweep(run: Run):
+    grid = G.duration_grid()
+    for u, m, clk, r in grid:
+        for mode in SWEEP_MODES:
+            msg, exp, _ = sweep_one(u, m, clk, mode)
+            if exp is None:
+                run.count("duration_grid_unconstrained")
+                continue
+            run.count("duration_grid_checked")
+            run.count("duration_grid_" + ("reject" if exp[0] == "reject" else "value"))
+            if msg is not None:
+                run.violation(f"count_periods/{mode}/{u}({m})/{clk}",
+                              f"std.{u}({m}).count_periods(<{clk}>.period()) [{mode}]: {msg}",
+                              {"generator": "c16_duration_grid", "sweep": [u, m, clk, mode]})
+    if run.counters.get("duration_grid_value", 0) < 500 or run.counters.get("duration_grid_reject", 0) < 100:
+        run.tool_error("vacuous: Duration grid sweep exercised too few integer / non-dividing combinations")
+
+
 def work(cfgs):
     out = []
     for cfg in cfgs:
@@ -193,6 +287,8 @@ def main(run: Run):
     if only:  # debug aid (--only wait,toggle): restrict to some families; the vacuity guards then only see those
         cfgs = [c for c in cfgs if c["family"] in only]
     run.count("configurations", len(cfgs))
+    if not only or "grid" in only:
+        duration_sweep(run)
     fam_total = {}
     for c in cfgs:
         fam_total[c["family"]] = fam_total.get(c["family"], 0) + 1
@@ -279,6 +375,12 @@ def main(run: Run):
 
 
 def replay(run: Run, data):
+    if data.get("sweep"):
+        msg = sweep_one(*data["sweep"])[0]
+        if msg is not None:
+            print("reproduced:", msg)
+            return False
+        return True
     msg = replay_config(data["config"], data.get("events"), asserts=bool(data.get("asserts", True)))
     if msg is not None:
         print("reproduced:", msg)
